@@ -153,7 +153,26 @@ def ecap (v : Array String) : String :=
   let o : Out α := Out.empty (rdNat v 3)
   fOut (if rdBool v 2 then tessellateEmptyRoundCap (rdP v 0) tol d o else tessellateEmptySquareCap (rdP v 0) d o)
 
+/-! polyline skeleton (bevel joins, butt caps, fixed width):
+`tol width nsub (n closed (x y)*)*` → `V n (src side)* T m (a b c)*` -/
+
+def rdPts (v : Array String) : Nat → Nat → List (P α)
+  | 0, _ => []
+  | n+1, i => rdP v i :: rdPts v n (i+2)
+
+def rdSubs (v : Array String) : Nat → Nat → List (List (P α) × Bool)
+  | 0, _ => []
+  | k+1, i =>
+    let n := rdNat v i
+    (rdPts v n (i+2), rdBool v (i+1)) :: rdSubs v k (i + 2 + 2 * n)
+
+def poly (v : Array String) : String :=
+  let m := Poly.path (rd v 0 : α) (rd v 1) (rdSubs v (rdNat v 2) 3)
+  unwords (["V", toString m.verts.length] ++ m.verts.map (fun (s, sd) => toString s ++ " " ++ fSide sd)
+    ++ ["T", toString m.tris.length] ++ m.tris.map fTri)
+
 def families : List Family := [
+  ⟨"poly", poly (α := Float32), poly (α := Float)⟩,
   ⟨"cn", cn (α := Float32), cn (α := Float)⟩,
   ⟨"cfs", cfs (α := Float32), cfs (α := Float)⟩,
   ⟨"vtx", vtx (α := Float32), vtx (α := Float)⟩,
